@@ -1,0 +1,138 @@
+//go:build verif
+
+package ast
+
+// Comment-only file: machine-checked contracts for /verif (see /verif/DESIGN.md).
+// There is no code in this file; the build tag keeps it out of every normal build.
+//
+// C18 - every DeepCopy method gets its contract from the go/types declaration of the copied type
+// (one obligation per declared field, plus "writes only memory allocated by this very activation").
+// Only the loop invariants have to be written down; they all have the same three shapes.
+//
+//@ func Type.DeepCopy
+//@   loop 0:
+//@     invariant own: own(newType.Hints)
+//@     invariant dom: forall k: string :: newType.Hints.has(k) == visited(k)
+//@     invariant vals: forall k: string :: visited(k) ==> copyrel(t.Hints[k], newType.Hints[k])
+//
+//@ func DisjunctionType.DeepCopy
+//@   loop 0:
+//@     invariant own: own(newT.Branches)
+//@     invariant len: len(newT.Branches) == $i + 1
+//@     invariant elems: forall j: int :: 0 <= j && j < len(newT.Branches) ==> copyrel(t.Branches[j], newT.Branches[j])
+//@   loop 1:
+//@     invariant own: own(newT.DiscriminatorMapping)
+//@     invariant dom: forall k: string :: newT.DiscriminatorMapping.has(k) == visited(k)
+//@     invariant vals: forall k: string :: visited(k) ==> copyrel(t.DiscriminatorMapping[k], newT.DiscriminatorMapping[k])
+//
+//@ func EnumType.DeepCopy
+//@   loop 0:
+//@     invariant own: own(newT.Values)
+//@     invariant len: len(newT.Values) == $i + 1
+//@     invariant elems: forall j: int :: 0 <= j && j < len(newT.Values) ==> copyrel(t.Values[j], newT.Values[j])
+//
+//@ func StructType.DeepCopy
+//@   loop 0:
+//@     invariant own: own(newT.Fields)
+//@     invariant len: len(newT.Fields) == $i + 1
+//@     invariant elems: forall j: int :: 0 <= j && j < len(newT.Fields) ==> copyrel(structType.Fields[j], newT.Fields[j])
+//
+//@ func ScalarType.DeepCopy
+//@   loop 0:
+//@     invariant own: own(newT.Constraints)
+//@     invariant len: len(newT.Constraints) == $i + 1
+//@     invariant elems: forall j: int :: 0 <= j && j < len(newT.Constraints) ==> copyrel(scalarType.Constraints[j], newT.Constraints[j])
+//
+//@ func IntersectionType.DeepCopy
+//@   loop 0:
+//@     invariant own: own(newT.Branches)
+//@     invariant len: len(newT.Branches) == $i + 1
+//@     invariant elems: forall j: int :: 0 <= j && j < len(newT.Branches) ==> copyrel(inter.Branches[j], newT.Branches[j])
+//
+//@ func (*Builder).DeepCopy
+//@   loop 0:
+//@     invariant own: own(clone.Properties)
+//@     invariant len: len(clone.Properties) == $i + 1
+//@     invariant elems: forall j: int :: 0 <= j && j < len(clone.Properties) ==> copyrel(builder.Properties[j], clone.Properties[j])
+//@   loop 1:
+//@     invariant own: own(clone.Options)
+//@     invariant len: len(clone.Options) == $i + 1
+//@     invariant elems: forall j: int :: 0 <= j && j < len(clone.Options) ==> copyrel(builder.Options[j], clone.Options[j])
+//
+//@ func (*Constructor).DeepCopy
+//@   loop 0:
+//@     invariant own: own(clone.Args)
+//@     invariant len: len(clone.Args) == $i + 1
+//@     invariant elems: forall j: int :: 0 <= j && j < len(clone.Args) ==> copyrel(constructor.Args[j], clone.Args[j])
+//@   loop 1:
+//@     invariant own: own(clone.Assignments)
+//@     invariant len: len(clone.Assignments) == $i + 1
+//@     invariant elems: forall j: int :: 0 <= j && j < len(clone.Assignments) ==> copyrel(constructor.Assignments[j], clone.Assignments[j])
+//
+//@ func (*Option).DeepCopy
+//@   loop 0:
+//@     invariant own: own(clone.Args)
+//@     invariant len: len(clone.Args) == $i + 1
+//@     invariant elems: forall j: int :: 0 <= j && j < len(clone.Args) ==> copyrel(opt.Args[j], clone.Args[j])
+//@   loop 1:
+//@     invariant own: own(clone.Assignments)
+//@     invariant len: len(clone.Assignments) == $i + 1
+//@     invariant elems: forall j: int :: 0 <= j && j < len(clone.Assignments) ==> copyrel(opt.Assignments[j], clone.Assignments[j])
+//
+//@ func Path.DeepCopy
+//@   loop 0:
+//@     invariant own: own(clone)
+//@     invariant len: len(clone) == $i + 1
+//@     invariant elems: forall j: int :: 0 <= j && j < len(clone) ==> copyrel(path[j], clone[j])
+//
+//@ func (*AssignmentEnvelope).DeepCopy
+//@   loop 0:
+//@     invariant own: own(clone.Values)
+//@     invariant len: len(clone.Values) == $i + 1
+//@     invariant elems: forall j: int :: 0 <= j && j < len(clone.Values) ==> copyrel(envelope.Values[j], clone.Values[j])
+//
+//@ func (*Assignment).DeepCopy
+//@   inlined-loop 0:
+//@     invariant own: own(output)
+//@     invariant len: len(output) == len(input)
+//@     invariant elems: forall j: int :: 0 <= j && j <= $i ==> copyrel(input[j], output[j])
+//@   inlined-loop 1:
+//@     invariant own: own(output)
+//@     invariant len: len(output) == len(input)
+//@     invariant elems: forall j: int :: 0 <= j && j <= $i ==> copyrel(input[j], output[j])
+//
+//@ func (*BuilderFactory).DeepCopy
+//@   inlined-loop 0:
+//@     invariant own: own(output)
+//@     invariant len: len(output) == len(input)
+//@     invariant elems: forall j: int :: 0 <= j && j <= $i ==> copyrel(input[j], output[j])
+//@   inlined-loop 1:
+//@     invariant own: own(output)
+//@     invariant len: len(output) == len(input)
+//@     invariant elems: forall j: int :: 0 <= j && j <= $i ==> copyrel(input[j], output[j])
+//
+//@ func (*OptionCall).DeepCopy
+//@   inlined-loop 0:
+//@     invariant own: own(output)
+//@     invariant len: len(output) == len(input)
+//@     invariant elems: forall j: int :: 0 <= j && j <= $i ==> copyrel(input[j], output[j])
+//
+//@ func (*FactoryCall).DeepCopy
+//@   inlined-loop 0:
+//@     invariant own: own(output)
+//@     invariant len: len(output) == len(input)
+//@     invariant elems: forall j: int :: 0 <= j && j <= $i ==> copyrel(input[j], output[j])
+//
+//@ func Schemas.DeepCopy
+//@   requires forall j: int :: 0 <= j && j < len(schemas) ==> schemas[j] != nil && wf(schemas[j].Objects)
+//@   loop 0:
+//@     invariant own: own(newSchemas)
+//@     invariant len: len(newSchemas) == $i + 1
+//@     invariant elems: forall j: int :: 0 <= j && j < len(newSchemas) ==> copyrel(schemas[j], newSchemas[j])
+//@     witness pos(k) := skolem("pos", "pre", $i + 1, k)
+//
+//@ func (*Schema).DeepCopy
+//@   requires wf(schema.Objects)
+//@   inlined-loop 0:
+//@     invariant own: own(newMap) && own(newMap.records) && own(newMap.order)
+//@     invariant vals: forall k: string :: newMap.records.has(k) ==> copyrel(orderedMap.records[k], newMap.records[k])
